@@ -6,15 +6,18 @@ from concurrent.futures import ThreadPoolExecutor
 import vlib
 from vlib import log
 
-NONVAC = [("garbage_continues", "NoReadAfterGiveUp"), ("no_rearm", "DeadlineClass"), ("write_twice", "OneReply"),
+NONVAC = [("write_after_trunc", "FramesWhole"), ("garbage_continues", "NoReadAfterGiveUp"), ("no_rearm", "DeadlineClass"), ("write_twice", "OneReply"),
           ("nil_keeps_open", "NilCloses"), ("ctx_early", "CtxNotEarly"), ("ctx_not_cancelled", "DoneIsClean")]
 TCP_ONLY = ("SkipBad",)
-UDP_NEVER = ("Accept", "SendPart", "SendRest", "HalfClose", "TimerFire", "Arm", "ArmClosed", "ReaderCancel", "ReaderClose", "ReaderDone")
+UDP_NEVER = ("PartialWrite", "Stall", "TruncClose", "Unstall", "Accept", "SendPart", "SendRest", "HalfClose", "TimerFire", "Arm", "ArmClosed", "ReaderCancel", "ReaderClose", "ReaderDone")
 
 
 def _sig(mode, info, rec):
     ev = info.get("event") or {}
     s = "server:%s:rejected-at:%s" % (mode, ev.get("ev"))
+    if ev.get("ev") in ("Write", "PartialWrite", "Quiet") and any(
+            e.get("ev") == "PartialWrite" and e is not ev and (ev.get("ev") == "Quiet" or e.get("c") == ev.get("c")) for e in rec["events"]):
+        return s + ":connection-kept-after-partial-write"
     if ev.get("ev") == "Arm":
         s += ":cls=%s" % ev.get("cls")
     elif ev.get("ev") in ("Write", "Invoke"):
@@ -69,6 +72,9 @@ def run_extra(ctx):
         "server lifecycle: udp replies are observed by the client sockets: the server-side write is a silent spec step (only while "
         "the socket is open), the logged Write is its observation and may come arbitrarily late (also after End); a datagram "
         "written but unobserved for the full 10 s bound counts as lost (loopback does not lose datagrams)",
+        "server lifecycle: a stalled client (Stall/Unstall) blocks Write on the scripted connection; if the server has armed a write "
+        "deadline it passes at once (virtual time) and Write returns after a part of the frame (PartialWrite) - the spec then "
+        "allows nothing but closing that connection (FramesWhole); the present code arms no write deadline and just blocks",
         "server lifecycle: a harness wait that expires (10 s without the awaited reaction) is logged as Quiet and is legal only "
         "if the spec's server has no enabled step",
     ]
@@ -104,7 +110,8 @@ def run_extra(ctx):
     def weight(b):
         acts = [s["a"] for s in b["steps"]]
         return (acts.count("Invoke") >= 2) + ("TimerFire" in acts) + ("Garbage" in acts) + any(
-            s["a"] == "Release" and s.get("k") == "nil" for s in b["steps"]) + ("SendPart" in acts) + ("ListenerClose" in acts)
+            s["a"] == "Release" and s.get("k") == "nil" for s in b["steps"]) + ("SendPart" in acts) + ("ListenerClose" in acts) + 2 * (
+                "Stall" in acts and any(s["a"] == "Release" and s.get("k") == "reply" for s in b["steps"][acts.index("Stall"):]))
     for bs, n in ((tb, 2500 if T else 450), (ub, 600 if T else 120)):
         rng.shuffle(bs)
         bs.sort(key=lambda b: -weight(b))
